@@ -151,7 +151,7 @@ func VC14MakePin(s VC14PinSpec) *api.Pin {
 // VC14GenPinset draws a pinset: distinct CIDs, every type, depth, option. intn(n) is the caller's PRNG.
 // originsPct is the chance (in %) that the pinset contains pins with origins at all.
 func VC14GenPinset(intn func(int) int, maxPins int, originsPct int) []VC14PinSpec {
-	n := intn(maxPins + 1)
+	n := 1 + intn(maxPins)
 	if intn(10) == 0 {
 		n = 0
 	}
